@@ -949,7 +949,7 @@ def rule_D(ck, witness_units):
         ck.floors['D.must-compile'] = FLOORS[ck.tier]['D']
 
 
-def rule_F(ck, T):
+def rule_F(ck, T, global_rule=True):
     """F.mpi-relaxation-operand: the compile-time distributed relaxation amgcl::mpi::relaxation::X<Backend> says from which operand the serial
     relaxation X is built: Base(*A.local(), ...) (the local diagonal block) or Base(A, ...) (the distributed matrix: chebyshev needs the
     global spectral radius).  The run-time wrapper runtime::mpi::relaxation::wrapper constructs amgcl::relaxation::X through
@@ -995,6 +995,27 @@ def rule_F(ck, T):
                         kind = None          # a local matrix that is not the local block of the distributed matrix
                     prev = rt.get(m.group(1))
                     rt[m.group(1)] = (kind if prev is None or prev[0] == kind else None, f.where(n))
+    # a relaxation whose constructor estimates a property of the WHOLE operator (the spectral radius: Chebyshev) has to see the distributed
+    # matrix - the overload of backend::spectral_radius for distributed matrices includes the remote couplings and reduces over the
+    # communicator; from the local diagonal block every rank would get its own interval
+    import inline
+    if global_rule:
+        ck.rule('F.global-estimate-distributed', 'a distributed relaxation whose serial constructor estimates the spectral radius of its operand (chebyshev) is built from the distributed '
+                                                 'matrix, in the compile-time class and in the run-time wrapper: every rank uses the same interval, that of the global operator', 1)
+        needs_global = set()
+        for f in u.funcs:
+            if f.cls and f.cls.startswith('amgcl::relaxation::') and f.j.get('ctor') and f.body is not None:
+                g = inline.expand(f, inline.same_class_helper())
+                if any(True for _ in g.calls('amgcl::backend::spectral_radius')):
+                    needs_global.add(f.cls.split('<')[0].split('::')[-1])
+        for name in sorted(needs_global):
+            for side, table in (('compile-time class mpi::relaxation::%s' % name, ct), ('run-time wrapper runtime::mpi::relaxation::wrapper', rt)):
+                if name not in table:
+                    continue
+                kind, where = table[name]
+                ck.ob('F.global-estimate-distributed', '%s|%s' % (name, side.split(' ')[0]), where, kind == 'distributed', '' if kind == 'distributed' else
+                      'relaxation::%s estimates the spectral radius of the matrix it is constructed from; the %s builds it from the %s operand at %s: the estimate ignores the remote '
+                      'couplings and is not reduced over the communicator, every rank smooths with its own interval' % (name, side, kind, where))
     for name, (k_rt, where) in sorted(rt.items()):
         if name not in ct:
             ck.ob('F.mpi-relaxation-operand', 'runtime::mpi::relaxation::wrapper|' + name, where, False, 'no compile-time class amgcl::mpi::relaxation::%s instantiated to compare with' % name)
